@@ -83,6 +83,9 @@ def check(run):
     _r8(run, inst)
     from ..cachekey import check_caches
     check_caches(run, list(mods.values()) + [inst], 'C08-K', prog=prog)
+    # "installing the file into a repository and reading it back yields the same tables": the repository rules, for the updaters and readers
+    run.include('C06', set(REPO) | {'cherab/openadas/install.py'},
+                'the tables an install route stores must be the ones read back: the writers and readers of the repository')
 
 
 def _resolver(prog):
